@@ -38,7 +38,7 @@ CHECKS = {
     "C08": ("exploration", "vsim", "call/return histories with unique row ids, exactly-once multiset check, parse check at every lock-free instant",
             "2-6 real writer processes and 1-3 real collector processes calling ResultsAggregator's public API under the deterministic scheduler at lock-operation granularity; every appended row is unique so a collected row identifies its write.", "4 C08"),
     "C10": ("exploration", "vsim", "interval-based history checking of promote/demote + per-step version monitor + file hashes around stale writes",
-            "2-5 handles on 1-3 virtual hosts run seeded programs over Cluster's public API under the scheduler; mutual exclusion by definite/possible hold intervals, lost updates by a per-step on-disk version monitor, stale rejection by exception type and SHA-256 of the state files around every step of the attempt; plus the submitter-field monitor on full simulations.", "4 C10"),
+            "2-5 handles on 1-3 virtual hosts run seeded programs over Cluster's public API under the scheduler; mutual exclusion by definite/possible hold intervals, lost updates by a per-step on-disk version monitor, stale rejection by exception type and SHA-256 of the state files around every step of the attempt; a slice with a holder stalled inside the cluster lock beyond the lock timeout (waiting handles must fail loudly); a monitor on every removal of a lock marker (a live holder's marker deleted by another process); plus the submitter-field monitor on full simulations, incl. resubmit-jobs issued in the completion window.", "4 C10"),
     "C11": ("fault_enumeration", "vsim", "fault enumeration by deterministic replay (kill / torn write / EDQUOT / lock failure / sbatch / squeue at every scheduling point of a round) + safety oracles over the faulty history",
             "A reference run numbers the scheduling points of one submitter round; the same schedule is replayed with one fault at point k, then random continuations with further submitter attempts from other nodes and the user, under both lock-library behaviours; oracles: no job handed over or started twice, dependency order, result retention; after a squeue failure the run must reach the fault-free outcome. Quick stratifies over site classes, thorough enumerates every point.", "4 C11"),
     "C12": ("exploration", "vsim", "fault injection (node kills random and enumerated, sbatch failures, cycles) + accounting oracle against driver ground truth",
@@ -46,7 +46,7 @@ CHECKS = {
     "C13": ("exploration", "vsim", "resubmission scenarios with closure/selection reference model, before/after result comparison, refusal monitors",
             "Completed submissions (incl. missing jobs from killed nodes, with/without reports) followed by resubmit-jobs with random flag combinations, repeated resubmissions, and the command on incomplete submissions (idle / while another process is submitter, same or other host).", "4 C13"),
     "C14": ("exploration", "vsim", "trace oracle: no sbatch after the first canceled observation, scancel for every persisted id, result retention",
-            "cancel-jobs issued at random moments of running submissions followed by further try-submit-jobs / show-status rounds; scancel kills nodes at driver-chosen points.", "4 C14"),
+            "cancel-jobs issued at random moments of running submissions followed by further try-submit-jobs / show-status rounds (and, in a quarter, resubmit-jobs on the completed canceled submission); scancel kills nodes at driver-chosen points and fails for batches that are already gone; a cancel-jobs that obtained the role on an incomplete submission must mark it canceled.", "4 C14"),
     "C15": ("exploration", "vsim", "boundary-event monitor on stage configuration, submit-next-stage commands and pipeline.json",
             "Pipelines of 1-4 stages run with `jade pipeline submit` in HPC and local mode; the driver follows the current stage and checks order, once-only and bookkeeping clauses on boundary events.", "4 C15"),
     "C16": ("exploration", "vsim", "lifecycle-command probes reporting host/node/env/instant + order and count oracle",
@@ -54,11 +54,11 @@ CHECKS = {
     "C17": ("exploration", "comp", "generator over the public models + round-trip comparison + single-invalidity injection with a recording sbatch boundary",
             "Thousands of generated configurations dumped and reloaded through the real functions; each valid one must be accepted (reaching sbatch), each single injected invalidity must raise before any sbatch.", "4 C17"),
     "C18": ("exploration", "comp", "expectation tables vs real scripts / real submitter rounds against scripted squeue, sbatch and flaky executables",
-            "All 512 optional-field subsets (exhaustive) for the script; random scheduler listings over the full SLURM vocabulary, sbatch reply kinds and retry sequences served by real scripted executables to the real code; executions counted at the process boundary.", "4 C18"),
+            "All 512 optional-field subsets (exhaustive) for the script; random scheduler listings over the full SLURM vocabulary, sbatch reply kinds and retry sequences served by real scripted executables to the real code; executions counted at the process boundary; plus the scripts of whole simulated submissions read at the instant of every sbatch (node rounds, CLI parameters, resubmissions with changed HPC parameters, disabled Singularity section).", "4 C18"),
     "C19": ("exploration", "vsim", "process-boundary recording of argv/env by the job probe + stdio files + result rows",
             "Hostile command lines (quoting, whitespace, special characters, three renderings) run through the real submit-jobs -> sbatch -> run-jobs path; the probe reports what it was really started with.", "4 C19"),
     "C20": ("exploration", "comp", "unique-id event histories from concurrent real writer processes, injected sample sequences, generated result sets",
-            "Events: multiset equality, order, idempotence of EventsSummary over events written concurrently by forked processes; statistics: true min/max/mean of injected samples in the JSON written by finalize; tallies through the real completion step and on every completed simulation.", "4 C20"),
+            "Events: multiset equality, order, idempotence of EventsSummary over events written concurrently by forked processes; statistics: true min/max/mean of injected samples in the JSON written by finalize; tallies through the real completion step and on every completed simulation; simulated submissions whose jobs log events and resource samples themselves, incl. reports + resubmission (parquet summary compared row by row).", "4 C20"),
 }
 
 ENGINES = [
